@@ -164,10 +164,10 @@ def make_path_fn(h, known_regions, do_replay=True):
         res["verdict"] = {"unsat": "proved", "sat": "violation", "unknown": "unknown"}[r1]
         w = ctx.witness()
         res["witness"] = symcodec.encode(inp, w)
-        pred_w = symcodec.encode(out, w)
+        pred_w = symcodec.encode_out(out, w)
         if r1 == "sat":
             res["cex"] = symcodec.encode(inp, m1)
-            res["cex_pred"] = symcodec.encode(out, m1)
+            res["cex_pred"] = symcodec.encode_out(out, m1)
             res["cex_failing"] = _failing(clauses, m1)
         # obligation 2: is there a violation inside a known region on this path?
         if regs and r1 == "unsat":
@@ -232,7 +232,7 @@ def make_path_fn(h, known_regions, do_replay=True):
                     res.pop(k, None)
                 if r1 == "sat":
                     res["cex"] = symcodec.encode(inp, m1)
-                    res["cex_pred"] = symcodec.encode(out, m1)
+                    res["cex_pred"] = symcodec.encode_out(out, m1)
                     res["cex_failing"] = _failing(clauses, m1)
             if "known" in res:
                 rr = replay(h.opname, res["known"]["cex"])
